@@ -333,6 +333,14 @@ func (w *World) bFP(env *lisp.LEnv, args *lisp.LVal) *lisp.LVal {
 				panic(fmt.Sprintf("sim: injected host panic at fp %d hit %d", id, hit))
 			case "nil":
 				return nil
+			case "baddata":
+				// a defective host builtin: an error value one of whose data
+				// cells is a Go nil.  Whatever the interpreter does with it
+				// (it may well panic inside its own code when it touches the
+				// cell), the runtime must come out clean.
+				e := env.ErrorCondition("sim-baddata", 1)
+				e.Cells = append(e.Cells, nil)
+				return e
 			default:
 				data := make([]interface{}, 0, len(f.Data))
 				for _, d := range f.Data {
